@@ -79,10 +79,10 @@ def correspondence(ck, tier):
     # toPES
     for _ in range(40 if tier == "quick" else 400):
         n = int(rng.integers(2, 30))
-        radial = np.arange(n) * float(rng.choice([1.0, 0.5, 2.0]))
+        radial = (np.arange(n) + float(rng.choice([0.0, 0.0, 0.5, 0.7071]))) * float(rng.choice([1.0, 0.5, 2.0]))      # (grids off the axis too)
         inten = rng.random(n)
         c = float(rng.uniform(0.1, 5))
-        ck.count(("K.topes", n % 4), suite="K.toPES")
+        ck.count(("K.topes", n % 4, radial[0] == 0), suite="K.toPES")
         e, p = vmi.toPES(radial, inten.copy(), c)
         m = h2arr(drive([f"topes {n} {f2h(c)} {arr2h(radial)} {arr2h(inten)}"])[0].split()[3:]).reshape(2, n)
         if not (close(e, m[0], 1e-15) and close(p, m[1], 1e-15)):
